@@ -71,6 +71,14 @@ static double call_c(const CW& w, const double* a, int idx, double (*fp)(double)
   harness_fail("bad wrapper table entry");
 }
 
+// a K_eq callback that consults the library through the C entry points before returning its constant
+static double cb_uses_c_api(double) { volatile double g = ::masa_get_param("u_0"); (void)g; int d = 0; ::masa_get_dimension(&d); return 2.5; }
+static void on_alarm(int) {
+  // the C entry point did not return: written with async-signal-safe calls only, then the process ends (run.py reports the crash context)
+  const char msg[] = "C entry point did not return within 20 s (callback using the C API?)\n";
+  ssize_t w_ = write(2, msg, sizeof msg - 1); (void)w_;
+  vh::crash_now("C entry point did not return within 20 s while its callback used the C interface");
+}
 static long n_eval = 0, n_store = 0, n_status = 0, n_array = 0, n_name = 0;
 static const char* PROP = "C17";
 
@@ -269,8 +277,13 @@ struct CSide {
       double a[4] = {(double)p[0], (double)p[1], (double)p[2], (double)p[3]};
       int idx = w->kind == KI ? R->below(w->n + 2) : 0;
       hist(w->cname + " vs masa_eval_" + id + "<double> on " + m.sel + ":" + in.sol);
-      CAP.begin(); double vc = call_c(*w, a, idx, cbK_d); std::string oc = CAP.end();
-      CAP.begin(); double vx = call_ev<double>(api()[ei], a, idx, cbK_d); std::string ox = CAP.end();
+      // callback wrappers: half of the time with a callback that itself uses the C interface (reads a parameter, asks for the dimension)
+      // before returning; a call that does not come back within 20 s (they take microseconds) is reported, not waited for
+      double (*fcb)(double) = (w->kind == KF && R->coin()) ? cb_uses_c_api : cbK_d;
+      if (fcb == cb_uses_c_api) { LOG.count("c_evaluator_calls_with_a_callback_that_uses_the_c_api", 1); alarm(20); }
+      CAP.begin(); double vc = call_c(*w, a, idx, fcb); std::string oc = CAP.end();
+      alarm(0);
+      CAP.begin(); double vx = call_ev<double>(api()[ei], a, idx, fcb); std::string ox = CAP.end();
       n_eval++;
       if (!biteq(vc, vx))
         hviol(PROP, "c-evaluator-differs:" + w->cname, w->cname + " returned " + sval(vc) + ", masa_eval_" + id + "<double> returned " + sval(vx) + " on " + in.sol,
@@ -286,6 +299,7 @@ int main(int argc, char** argv) {
   LOG.open(getarg(argc, argv, "--out"));
   CAP.install();
   install_crash_handlers();
+  signal(SIGALRM, on_alarm);
   uint64_t seed = strtoull(getarg(argc, argv, "--seed", "1").c_str(), 0, 10);
   int shard = atoi(getarg(argc, argv, "--shard", "0").c_str());
   long n = atol(getarg(argc, argv, "--steps", "2000").c_str());
